@@ -608,6 +608,28 @@ impl Run {
         self.phases.push(json!({"phase": phase, "driver": "explicit", "cases": n, "wall_s": t0.elapsed().as_secs_f64()}));
     }
 
+    /// Fixed regression inputs that bypass the generators (shrunk failures of earlier findings, boundary cases).
+    pub fn fixed(&mut self, phase: &str, cases: Vec<(String, Box<dyn Fn() -> CaseResult + '_>)>) {
+        self.any_phase = true;
+        let mut n = 0;
+        for (label, f) in cases {
+            n += 1;
+            let res = match catch(|| f()) {
+                Ok(r) => r,
+                Err((loc, msg)) => Err(Failure::new(format!("panic@{}", short_loc(&loc)), format!("panic at {loc}: {msg}"), json!({"fixed_case": label}))),
+            };
+            match res {
+                Ok(rep) => self.stats.absorb(rep, MAX_SAMPLES),
+                Err(mut fl) => {
+                    self.stats.evaluations += 1;
+                    fl.message = format!("[fixed regression case '{label}'] {}", fl.message);
+                    self.add_violation(phase, fl, vec![]);
+                }
+            }
+        }
+        self.phases.push(json!({"phase": phase, "driver": "fixed", "cases": n}));
+    }
+
     /// Record a violation found by a custom phase (e.g. a statistical check or a fuzz campaign).
     pub fn add_violation(&mut self, phase: &str, fl: Failure, tape: Vec<u32>) {
         if self.known_status(&fl.signature).is_some() {
